@@ -27,6 +27,7 @@ EXPLANATION = (
     "(the 'ordered' relation is not transitive). (R8) gate-kind exhaustiveness: wherever a concrete gate class is tested with isinstance, the classes tested for that variable cover every concrete gate kind or the variable is then used through an attribute only the tested class declares — a validator narrowed from GateNode to one kind silently skips the others. (R9) the Union rule of strict type checking calls get_args on a type only on paths where that type is known to be a Union (a parameterised generic is never split into its type arguments), and the generic rule answers 'compatible' after taking both sides' type arguments only for an unparameterised side or by the pairwise comparison. (R10) no validator narrows a check to data outputs (emit names are outputs too)."
     " R6 also requires that no (edge, value) pair is skipped (each iteration of the loop chain edges > values > producers reaches the next loop, the innermost one the compatibility question or a rejection, evaluated for a value-carrying data edge), that only data edges are typed (no rejection reachable for an ordering or control edge, or such edges name no value), and that the producer side ranges over every node producing the value name whenever data edges are drawn from the first producer of a shared name only."
     " R1 also requires that nested-graph node names reach a check of their own on the branch that skips the identifier test, and that both endpoints of every recorded explicit edge are looked up in the node table whatever their spelling; R7 also requires that a producer listed twice for one name is rejected (a node is neither exclusive with nor ordered after itself)."
+    " R7 also requires that the up-front duplicate rejection covers a sole producer listing a name twice and that nothing the pair tests use is carried from one shared name to the next."
 )
 NOT_DECIDED = "The type-compatibility relation itself (a function over type objects) and the correctness of each individual validator's predicate; position independence is argued from the wiring, not tested."
 
